@@ -146,13 +146,16 @@ class Stats:
 RLIMIT_PER_MS = 3000       # deterministic resource budget per nominal millisecond (calibrated: ~1 ms of z3 work)
 
 
+WALL_BACKSTOP = 8      # wall-clock backstop as a multiple of the nominal budget (the deterministic rlimit is what decides)
+
+
 def check_sat(assertions, timeout_ms=5000, mbqi=True):
     """returns 'sat' | 'unsat' | 'unknown' and the solver (for models).
     The budget is z3's deterministic resource limit (rlimit), so verdicts do not depend on machine load; the wall-clock
     timeout is only a backstop (8x)."""
     s = z3.Solver()
     s.set("rlimit", int(timeout_ms * RLIMIT_PER_MS))
-    s.set("timeout", int(timeout_ms * 3))
+    s.set("timeout", int(timeout_ms * WALL_BACKSTOP))
     if not mbqi:
         s.set("smt.mbqi", False)
     for a in assertions:
@@ -295,8 +298,8 @@ def cvc5_check(smt2_text, timeout_s=10):
         f.write(smt2_text)
         path = f.name
     try:
-        p = subprocess.run([CVC5, "--tlimit=%d" % int(timeout_s * 1000), "--full-saturate-quant", path],
-                           capture_output=True, text=True, timeout=timeout_s + 5)
+        p = subprocess.run([CVC5, "--tlimit=%d" % int(timeout_s * 3000), "--full-saturate-quant", path],
+                           capture_output=True, text=True, timeout=timeout_s * 3 + 5)
         out = p.stdout.strip().splitlines()
         for l in out:
             if l.strip() in ("sat", "unsat", "unknown"):
